@@ -387,13 +387,16 @@ func (c *compiler) compile(tok *token) []instruction {
 				key = c.expPrefix(key)
 				idx = lookup.Index(key)
 			}
+			raw := reg(0)
 			if len(target.Tokens) > 0 {
 				typ := typeFromToken(c, target.Tokens[0])
 				if slices.Contains([]Type{TypeUint8, TypeInt8, TypeUint32, TypeInt32, TypeFloat64}, typ) {
 					res = append(res, instruction{Code: codeCast, A: reg(typ)})
 				}
+			} else {
+				raw = 1 // a constant declared without a type stays untyped: it takes its type where it is used
 			}
-			res = append(res, instruction{Code: code, A: reg(idx)})
+			res = append(res, instruction{Code: code, A: reg(idx), B: raw})
 		}
 	case ":=", "var":
 		values := c.compile(tok.Tokens[1])
